@@ -555,6 +555,9 @@ class Circuit(Unitary, StateVectorMap, Collection[Operation]):
                 '%d, got %d' % (self.num_qudits, len(qudit_permutation)),
             )
 
+        if not all(0 <= q < self.num_qudits for q in qudit_permutation):
+            raise IndexError('Qudit index in permutation is out-of-range.')
+
         if len(qudit_permutation) != len(set(qudit_permutation)):
             raise ValueError('Invalid permutation.')
 
